@@ -328,7 +328,7 @@ def name_plain(rng, n=None):
 def name_hostile(rng, profile=None):
     """A tree-entry name (bytes, non-empty, no NUL, no '/')."""
     profile = profile or rng.choice(["plain", "spaces", "quotes", "ctrl", "nonutf8", "long",
-                                     "revsyntax", "utf8"])
+                                     "revsyntax", "utf8", "percent"])
     if profile == "plain":
         return name_plain(rng)
     if profile == "spaces":
@@ -339,6 +339,9 @@ def name_hostile(rng, profile=None):
     if profile == "ctrl":
         return name_plain(rng, 2) + rng.choice([b"\t", b"\x01", b"\x1b[31m", b"\r", b"\x7f"]) \
             + name_plain(rng, 2)
+    if profile == "percent":
+        return name_plain(rng, 2) + rng.choice([b"100%", b"%", b"rate-5%\"q\"", b"50%\\off", b"%s%d%v", b"%!", b"%%", b"%[1]d", b"%n",
+                                                b"%\ttab", b"x%"]) + rng.choice([b"", b"", name_plain(rng, 1)])
     if profile == "lf":
         return name_plain(rng, 2) + b"\n" + rng.choice([name_plain(rng, 2), name_plain(rng, 2), b"[1]  injected" + name_plain(rng, 1),
                                                         b"[9]  " + name_plain(rng, 2), b"| x [3] |"])
@@ -468,6 +471,8 @@ def hostile_commit_extras(rng, pool):
     if rng.random() < 0.15:
         extra.append(b"mergetag object " + fake.encode() + b"\n type commit\n tag v1\n tagger X <x@y> 1 +0000\n \n parent "
                      + fake.encode() + b"\n")
+    if rng.random() < 0.08:
+        return extra, b"big message " + b"m" * rng.choice([66000, 70000, 140000, 300000]) + b"\n"
     msgs = [b"msg\n", b"", None, b"parent " + fake.encode() + b"\n", b"tree " + fake.encode() + b"\n\nparent "
             + fake.encode() + b"\n", b"x" * rng.randint(0, 2000) + b"\n", b"no trailing newline",
             b"\n\n\ntree " + fake.encode() + b"\n"]
